@@ -298,25 +298,25 @@ static void rec_simple(const char* slot) {
   vh_ev.arglen = 0;
   vh_ev.data = NULL;
 }
-static void cb_uint8(void* c, uint8_t v) { (void)c; rec_int("uint8", v); }
-static void cb_uint16(void* c, uint16_t v) { (void)c; rec_int("uint16", v); }
-static void cb_uint32(void* c, uint32_t v) { (void)c; rec_int("uint32", v); }
-static void cb_uint64(void* c, uint64_t v) { (void)c; rec_int("uint64", v); }
-static void cb_negint8(void* c, uint8_t v) { (void)c; rec_int("negint8", v); }
-static void cb_negint16(void* c, uint16_t v) { (void)c; rec_int("negint16", v); }
-static void cb_negint32(void* c, uint32_t v) { (void)c; rec_int("negint32", v); }
-static void cb_negint64(void* c, uint64_t v) { (void)c; rec_int("negint64", v); }
-static void cb_bs(void* c, cbor_data d, uint64_t n) { (void)c; rec_int("byte_string", n); vh_ev.data = d; }
-static void cb_bs_start(void* c) { (void)c; rec_simple("byte_string_start"); }
-static void cb_s(void* c, cbor_data d, uint64_t n) { (void)c; rec_int("string", n); vh_ev.data = d; }
-static void cb_s_start(void* c) { (void)c; rec_simple("string_start"); }
-static void cb_arr(void* c, uint64_t n) { (void)c; rec_int("array_start", n); }
-static void cb_iarr(void* c) { (void)c; rec_simple("indef_array_start"); }
-static void cb_map(void* c, uint64_t n) { (void)c; rec_int("map_start", n); }
-static void cb_imap(void* c) { (void)c; rec_simple("indef_map_start"); }
-static void cb_tag(void* c, uint64_t v) { (void)c; rec_int("tag", v); }
+static void cb_uint8(void* c, uint8_t v) { if (c != VH_CTX) vh_ev.ctx_bad = 1; rec_int("uint8", v); }
+static void cb_uint16(void* c, uint16_t v) { if (c != VH_CTX) vh_ev.ctx_bad = 1; rec_int("uint16", v); }
+static void cb_uint32(void* c, uint32_t v) { if (c != VH_CTX) vh_ev.ctx_bad = 1; rec_int("uint32", v); }
+static void cb_uint64(void* c, uint64_t v) { if (c != VH_CTX) vh_ev.ctx_bad = 1; rec_int("uint64", v); }
+static void cb_negint8(void* c, uint8_t v) { if (c != VH_CTX) vh_ev.ctx_bad = 1; rec_int("negint8", v); }
+static void cb_negint16(void* c, uint16_t v) { if (c != VH_CTX) vh_ev.ctx_bad = 1; rec_int("negint16", v); }
+static void cb_negint32(void* c, uint32_t v) { if (c != VH_CTX) vh_ev.ctx_bad = 1; rec_int("negint32", v); }
+static void cb_negint64(void* c, uint64_t v) { if (c != VH_CTX) vh_ev.ctx_bad = 1; rec_int("negint64", v); }
+static void cb_bs(void* c, cbor_data d, uint64_t n) { if (c != VH_CTX) vh_ev.ctx_bad = 1; rec_int("byte_string", n); vh_ev.data = d; }
+static void cb_bs_start(void* c) { if (c != VH_CTX) vh_ev.ctx_bad = 1; rec_simple("byte_string_start"); }
+static void cb_s(void* c, cbor_data d, uint64_t n) { if (c != VH_CTX) vh_ev.ctx_bad = 1; rec_int("string", n); vh_ev.data = d; }
+static void cb_s_start(void* c) { if (c != VH_CTX) vh_ev.ctx_bad = 1; rec_simple("string_start"); }
+static void cb_arr(void* c, uint64_t n) { if (c != VH_CTX) vh_ev.ctx_bad = 1; rec_int("array_start", n); }
+static void cb_iarr(void* c) { if (c != VH_CTX) vh_ev.ctx_bad = 1; rec_simple("indef_array_start"); }
+static void cb_map(void* c, uint64_t n) { if (c != VH_CTX) vh_ev.ctx_bad = 1; rec_int("map_start", n); }
+static void cb_imap(void* c) { if (c != VH_CTX) vh_ev.ctx_bad = 1; rec_simple("indef_map_start"); }
+static void cb_tag(void* c, uint64_t v) { if (c != VH_CTX) vh_ev.ctx_bad = 1; rec_int("tag", v); }
 static void cb_f2(void* c, float f) {
-  (void)c;
+  if (c != VH_CTX) vh_ev.ctx_bad = 1;
   uint32_t u;
   memcpy(&u, &f, 4);
   rec_int("float2", u);
@@ -324,7 +324,7 @@ static void cb_f2(void* c, float f) {
   vh_ev.arglen = 4;
 }
 static void cb_f4(void* c, float f) {
-  (void)c;
+  if (c != VH_CTX) vh_ev.ctx_bad = 1;
   uint32_t u;
   memcpy(&u, &f, 4);
   rec_int("float4", u);
@@ -332,20 +332,20 @@ static void cb_f4(void* c, float f) {
   vh_ev.arglen = 4;
 }
 static void cb_f8(void* c, double f) {
-  (void)c;
+  if (c != VH_CTX) vh_ev.ctx_bad = 1;
   uint64_t u;
   memcpy(&u, &f, 8);
   rec_int("float8", u);
 }
-static void cb_undef(void* c) { (void)c; rec_simple("undefined"); }
-static void cb_null(void* c) { (void)c; rec_simple("null"); }
+static void cb_undef(void* c) { if (c != VH_CTX) vh_ev.ctx_bad = 1; rec_simple("undefined"); }
+static void cb_null(void* c) { if (c != VH_CTX) vh_ev.ctx_bad = 1; rec_simple("null"); }
 static void cb_bool(void* c, bool b) {
-  (void)c;
+  if (c != VH_CTX) vh_ev.ctx_bad = 1;
   rec_int("boolean", b ? 1 : 0);
   vh_ev.arg[0] = vh_ev.arg[7];
   vh_ev.arglen = b ? 1 : 0;
 }
-static void cb_break(void* c) { (void)c; rec_simple("indef_break"); }
+static void cb_break(void* c) { if (c != VH_CTX) vh_ev.ctx_bad = 1; rec_simple("indef_break"); }
 
 const struct cbor_callbacks vh_recording_callbacks = {
     .uint8 = cb_uint8, .uint16 = cb_uint16, .uint32 = cb_uint32, .uint64 = cb_uint64,
